@@ -30,6 +30,17 @@ def union_roots_recorded():
     return "roots" in inspect.signature(UnionProperty.build).parameters
 
 
+def local_fragment(ref: str):
+    """the model's OWN reading of a $ref (not the implementation's parse_reference_path, so that the correspondence sees a change of
+    it): only a reference into the same document is resolved - no scheme, no host, no file path before the fragment; then the
+    fragment is the reference path.  Everything else (https://..., other.yaml#/..., ./dir/x.json#/...) is an intrinsic failure."""
+    from urllib.parse import urlparse
+    u = urlparse(ref)
+    if u.scheme or u.netloc or u.path:
+        return None
+    return u.fragment
+
+
 CAT = {"intrinsic": 1, "ref_missing": 2, "dup": 3, "enum_conflict": 4, "allof_missing": 5, "allof_nonobject": 6,
        "allof_unprocessed": 7, "recursive": 8, "reference_schema": 9, "union": 10}
 CAT_NAME = {v: k for k, v in CAT.items()}
@@ -149,11 +160,12 @@ class Abs:
         return "leaf"
 
     def need(self, data, ctx, prog, kind, name=None):
-        from openapi_python_client.parser.properties.schemas import parse_reference_path
-        from openapi_python_client.parser.errors import ParseError
-        rp = parse_reference_path(data.ref)
-        if isinstance(rp, ParseError):
-            self.emit(prog, ("fail", CAT["intrinsic"]), ctx)
+        rp = local_fragment(data.ref)
+        if rp is None:
+            # the error keeps the Reference as `data`: _process_models calls it recursive when the text ends in /<class being processed>
+            keeps0 = ctx.udepth == 0 or (ctx.udepth == 1 and ctx.direct)
+            rec0 = (not ctx.create) and keeps0 and ctx.top_cls is not None and data.ref.endswith(f"/{ctx.top_cls}")
+            self.emit(prog, ("fail", CAT["recursive"] if rec0 else CAT["intrinsic"]), ctx)
             return None
         # _process_models: an error whose `data` is a Reference ending in /<class being processed> is final ("Recursive allOf")
         # the error keeps this Reference as data when no union replaces it, or when it is a direct member of the only union above
@@ -353,9 +365,10 @@ class Abs:
 
         for sp in data.allOf:
             if isinstance(sp, oai.Reference):
-                rp = parse_reference_path(sp.ref)
-                if isinstance(rp, ParseError):
-                    self.emit(prog, ("fail", CAT["intrinsic"]), ctx)
+                rp = local_fragment(sp.ref)
+                if rp is None:
+                    rec0 = (not ctx.create) and ctx.udepth == 0 and ctx.top_cls is not None and sp.ref.endswith(f"/{ctx.top_cls}")
+                    self.emit(prog, ("fail", CAT["recursive"] if rec0 else CAT["intrinsic"]), ctx)
                     return
                 recur = ctx.ovr == 0 and ctx.top_cls is not None and sp.ref.endswith(f"/{ctx.top_cls}")
                 tn = rp.split("/")[-1]
